@@ -118,10 +118,15 @@ def gen_clump(rng, tier):
     for t in range(n):
         nv = rng.randint(1, 8)
         ns = rng.randint(2, 8)
-        medium = rng.random() < 0.05
+        # a tenth of the cases each goes to three corners that need several unremarkable conditions at once (fixed shares, so that
+        # every run holds them whatever the seed): more than 32 strong hits with p-values that differ only beyond single
+        # precision; a dense window of tandem repeats with missing calls; a window that is not a whole number of base pairs with
+        # a candidate in LD exactly on its last base pair
+        stream = {0: "tiny_p", 1: "dense", 2: "window"}.get(t % 10)
+        medium = stream == "tiny_p" or rng.random() < 0.03
         if medium:
-            nv, ns = rng.randint(17, 45), rng.randint(17, 40)
-        dense = (not medium) and rng.random() < 0.04  # 26-40 tandem repeats with missing calls inside one window
+            nv, ns = rng.randint(17, 45) if stream != "tiny_p" else rng.randint(34, 45), rng.randint(17, 40)
+        dense = stream == "dense"  # 26-40 tandem repeats with missing calls inside one window
         if dense:
             nv, ns = rng.randint(26, 40), rng.randint(12, 20)
         chroms = rng.sample(["1", "2", "X"], rng.randint(1, 2)) if not dense else [rng.choice(["1", "2", "X"])]
@@ -166,7 +171,29 @@ def gen_clump(rng, tier):
                     # r2 is taken over the samples called at both variants
                     for k in rng.sample(range(ns), rng.randint(1, max(1, ns // 3))):
                         gts[j][k] = None
-        yield {"types": types, "variants": variants, "gts": gts, "order": rows, "p1": rng.choice(["0.0001", "0.01", "0.1", "0.6", "1"]), "p2": rng.choice(["0.01", "0.3", "1"]), "kb": rng.choice([0.001, 0.5, 1, 250, 250, 0.5002, 1.9003, 0.4003, 32.3]) if not dense else 250, "r2": rng.choice([0.0, 0.1, 0.5, 0.9]), "ld": rng.choice(["Pearson", "Pearson", "Exact"]) if mode == "snp" else "Pearson", "cols": rng.choice([["SNP", "CHR", "POS", "P"], ["P", "POS", "SNP", "CHR"], ["CHR", "junk", "SNP", "P", "POS"]]), "names": rng.choice([None, {"SNP": "ID", "P": "p-value", "CHR": "CHROM", "POS": "position"}]), "pgen": rng.random() < 0.3 and mode != "str"}
+        over = {}
+        if stream == "tiny_p":
+            for v in variants:
+                v["p"] = rng.choice(["1e-70", "3e-52", "4e-48", "1e-300", "1e-46", "2e-46", "1e-8"])
+            over = {"p1": "1", "p2": "1", "kb": rng.choice([250, 1000])}
+        elif stream == "dense":
+            over = {"p1": rng.choice(["0.6", "1"]), "p2": "1", "r2": rng.choice([0.1, 0.5])}
+        elif stream == "window" and nv >= 3:
+            kb = rng.choice([32.3, 0.5002, 1.9003, 0.4003, 2.0015, 128.2])
+            w = int(math.floor(Fraction(str(kb)) * 1000))  # the last whole base pair inside the window
+            c0 = variants[0]["chrom"]
+            variants[0].update(pos=1000, p="1e-9")
+            variants[1].update(chrom=c0, pos=1000 + w, p="0.001")
+            variants[2].update(chrom=c0, pos=1000 + w + 1, p="0.002")
+            for j in range(3, nv):
+                variants[j]["pos"] += 2_000_000  # out of the way
+            for j in (1, 2):
+                gts[j] = [list(x) if x is not None else None for x in gts[0]]  # in complete LD with the index variant
+                types[j] = types[0]
+            over = {"p1": "1", "p2": "1", "r2": rng.choice([0.1, 0.5]), "kb": kb}
+        case = {"types": types, "variants": variants, "gts": gts, "order": rows, "p1": rng.choice(["0.0001", "0.01", "0.1", "0.6", "1"]), "p2": rng.choice(["0.01", "0.3", "1"]), "kb": rng.choice([0.001, 0.5, 1, 250, 250, 0.5002, 1.9003, 0.4003, 32.3]) if not dense else 250, "r2": rng.choice([0.0, 0.1, 0.5, 0.9]), "ld": rng.choice(["Pearson", "Pearson", "Exact"]) if mode == "snp" else "Pearson", "cols": rng.choice([["SNP", "CHR", "POS", "P"], ["P", "POS", "SNP", "CHR"], ["CHR", "junk", "SNP", "P", "POS"]]), "names": rng.choice([None, {"SNP": "ID", "P": "p-value", "CHR": "CHROM", "POS": "position"}]), "pgen": rng.random() < 0.3 and mode != "str"}
+        case.update(over)
+        yield case
 
 
 def loaded_order(case):
